@@ -4,7 +4,8 @@
 // probe.b(id, bytes), probe.t(id, bool): each records (id, value) and returns 1.  A probe whose argument is undefined
 // is never called (the evaluator poisons the whole call), so an id without record = undefined.
 //
-// Case JSON:  {"rules": "<yara text>", "nprobes": n, "input": {"mem": hex} | {"regions": [...]} , "params": {...}}
+// Case JSON:  {"rules": "<yara text>", "nprobes": n, "input": {"mem": hex} | {"regions": [...]} |
+//              {"fill": {"pattern": hex, "repeat": k, "splits": [k1, ..]?}}, "params": {...}}
 // Result:     {"vals": [null | {"i": "<i64>"} | {"f": "<u64 bits>"} | {"b": hex} | {"t": bool}], "error": null|..}
 //             or {"compile_error": text}; a panic is reported by run_main as {"panic": msg}.
 use std::cell::RefCell;
@@ -73,6 +74,30 @@ pub fn run(case: &Value) -> Value {
     let res = if let Some(h) = input["mem"].as_str() {
         let mem = unhex(h);
         scanner.scan_mem(&mem)
+    } else if input["fill"].is_object() {
+        // huge periodic input, described by a short pattern and a repeat count (the case file stays small);
+        // with "splits" the same bytes are delivered as adjacent regions of a fragmented memory starting at 0
+        let f = &input["fill"];
+        let pat = get_bytes(f, "pattern");
+        let rep = get_usize(f, "repeat");
+        if let Some(splits) = f["splits"].as_array() {
+            let mut regions = Vec::new();
+            let mut addr = 0usize;
+            for k in splits {
+                let data = pat.repeat(k.as_u64().unwrap() as usize);
+                let len = data.len();
+                regions.push((addr, data, false, None));
+                addr += len;
+            }
+            scanner.scan_fragmented(bvh::scan::Regions {
+                regions,
+                cur: None,
+                log: std::sync::Arc::new(std::sync::Mutex::new(Vec::new())),
+            })
+        } else {
+            let mem = pat.repeat(rep);
+            scanner.scan_mem(&mem)
+        }
     } else {
         scanner.scan_fragmented(make_regions(input))
     };
